@@ -82,9 +82,17 @@ def model_cache_part(ctx):
 def thermo_part(ctx):
     from .. import thermo_drv as TD
     for system, alpha in (("alzr", TD.binary_alphabet()), ("nicral", TD.ternary_alphabet()), ("fecrni", TD.two_phase_alphabet())):
-        memo = TD.memo_answers(system, alpha)
+        searches = TD.search_alphabet() if system == "nicral" else []
+        memo = TD.memo_answers(system, alpha + searches)
         alpha = TD.stable_alphabet(alpha, memo)
         hist = TD.gen_histories(ctx.rng, alpha, ctx.tier)
+        if system == "nicral":
+            # undersaturated compositions with a search direction (what the precipitation model does during dissolution) between stable queries
+            hist = hist + TD.search_histories(alpha, [q for q in searches if memo[q] is not None])
+            if not any(memo[q] is not None for q in searches):
+                raise MachineryError("vacuity: no search query found a two-phase equilibrium")
+            # curvature / impingement queries in the single-phase region (fall-back to the previous result) between stable queries, caches kept
+            hist = hist + TD.aside_histories(alpha, [((0.01, 0.01), 1073.15)] + ([((0.02, 0.01), 1073.15)] if ctx.tier != "quick" else []))
         trs = [TD.run_history(system, h, memo) for h in hist]
         if system == "alzr":
             hist = hist + [[("switch-method",)]]
